@@ -12,10 +12,11 @@
 //! mode 2: `2 ptype hasdrop page nsz nal nsize nalign n t op*` drives the public `CQueue<P>` API;
 //!   op = 1 dt (add at time()+dt, payload id = number of adds so far) | 2 k (cancel k-th handle) | 3 (fetch).
 //!   Records: new -> 20 EVS TAIL | add -> 1 EVS TAIL D | cancel -> 5 EVS TAIL D | fetch -> 2 id time ok EVS TAIL D |
-//!   fetch on empty -> 9 | drop of the queue (always last) -> 10 EVS shadow_mem shadow_live D 11 ok
+//!   fetch on empty -> 9 | drop of the queue (always last) -> 10 EVS shadow_mem shadow_live D 11 drops_ok safe paired
 //!   EVS = k (kind pg off)*, kind 1 alloc 2 free; TAIL = allocated_mem npages links_ok len;
 //!   D = 0 | k id* (sorted ids whose destructor ran during the call; 0 for types without Drop);
-//!   ok = every payload was dropped exactly once and every allocation was released exactly once.
+//!   drops_ok = every payload's destructor ran exactly once; safe = the shadow map saw no overlap / foreign release;
+//!   paired = every block was released before the allocator went away.
 use des_cqueue::verif::{set_alloc_observer, AllocEvent, CQueueLLAllocatorInner};
 use des_cqueue::{CQueue, EventHandle};
 use implrun::Cur;
@@ -83,6 +84,8 @@ fn install() -> Rc<RefCell<Obs>> {
                     o.shadow_bad = true;
                 }
                 o.shadow.insert(addr, size);
+                // the watchdog bounds the pages added by ONE allocate call
+                o.pages_this_call = 0;
             }
             AllocEvent::Free { addr, size } => {
                 if o.shadow.remove(&addr) != Some(size) {
@@ -492,7 +495,11 @@ fn run_queue<P: Payload>(c: &mut Cur, probe: bool) -> Vec<u64> {
     }
     enc_drops::<P>(&mut out, &mut tally);
     let o = obs.borrow();
-    let mut ok = !o.shadow_bad && !o.oracle_bad && o.shadow.is_empty();
+    // safe: no block handed out twice / overlapping a live one / released while not live, pages sane;
+    // paired: every block handed out was released before the allocator went away
+    let safe = !o.shadow_bad && !o.oracle_bad;
+    let paired = o.shadow.is_empty();
+    let mut drops_ok = true;
     if P::HAS_DROP {
         // ids are stored modulo what the payload can hold
         let m = if std::mem::size_of::<P>() == 1 { 256 } else { u64::MAX };
@@ -500,9 +507,9 @@ fn run_queue<P: Payload>(c: &mut Cur, probe: bool) -> Vec<u64> {
         for id in 0..nadds {
             *want.entry(id % m).or_insert(0) += 1;
         }
-        ok &= want == tally;
+        drops_ok = want == tally;
     }
-    out.extend([11, ok as u64]);
+    out.extend([11, drops_ok as u64, safe as u64, paired as u64]);
     out
 }
 
